@@ -114,6 +114,11 @@ public:
 	return false;
       }
     string dest_dir(args[1]);
+    if (dest_dir.empty())
+      {
+	cerr << "extract-all: the destination directory name is empty.\n";
+	return false;
+      }
     if (dest_dir.back() != '/')
       dest_dir.push_back('/');
 
